@@ -231,6 +231,11 @@ func lruCase(t *lib.Trace, r *rand.Rand) {
 	}
 	dupPut := r.Intn(3) == 0 // plain Put of keys that may already be cached
 	nops := size*3 + r.Intn(size*4)
+	resetHist := r.Intn(3) == 0 // several Resets, each followed by a refill beyond capacity
+	if resetHist {
+		nops *= 2
+		t.Count("lru reset history")
+	}
 	serial := 0
 	entries := func() (n int, s string) {
 		var sb strings.Builder
@@ -252,28 +257,49 @@ func lruCase(t *lib.Trace, r *rand.Rand) {
 		}
 	}
 	// the key of the previous Put is at (or near) the newest end: the next Put must not evict it
-	prevPut := lk(-1)
-	afterPut := func(k lk) {
-		if prevPut >= 0 && prevPut != k {
+	// eviction oracle: every Put and every Get hit moves the older entries by at most one position, so an
+	// entry can only be evicted after at least size-1 such operations since it was Put
+	opno := 0
+	putAt := map[lk]int{}
+	resident := func() map[lk]bool {
+		m := map[lk]bool{}
+		for k2 := range c.Entries() {
+			m[k2] = true
+		}
+		return m
+	}
+	checkEvict := func(before map[lk]bool, k lk) {
+		for k2 := range before {
+			if k2 == k {
+				continue
+			}
 			found := false
-			for k2 := range c.Entries() {
-				if k2 == prevPut {
+			for k3 := range c.Entries() {
+				if k3 == k2 {
 					found = true
 					break
 				}
 			}
 			if !found {
-				t.Fail("lru-evicts-most-recent", fmt.Sprintf("Put(%d) evicted key %d, the key of the previous Put; size=%d", int(k), int(prevPut), size))
+				if at, ok := putAt[k2]; ok && opno-at < size-1 {
+					t.Fail("lru-evicts-recent", fmt.Sprintf("Put(%d) evicted key %d that was Put only %d moving operations ago; capacity %d", int(k), int(k2), opno-at, size))
+				}
+				delete(putAt, k2)
 			}
 		}
-		prevPut = k
 	}
+	// (superseded: "the next Put must not evict the key of the previous Put" ignored the Get hits in
+	// between, which legitimately age an entry; the eviction oracle above counts every moving operation)
+	prevPut := lk(-1)
+	afterPut := func(k lk) { prevPut = k }
+	_ = prevPut
 	for i := 0; i < nops; i++ {
 		k := lk(r.Intn(nkeys))
 		switch x := r.Intn(20); {
 		case x < 8:
 			v, ok := c.Get(k)
 			if ok {
+				opno++
 				checkHit("Get", k, v)
 				t.Qf(fmt.Sprint(v), "lget %d", int(k))
 				t.Count("lru get hit")
@@ -285,9 +311,13 @@ func lruCase(t *lib.Trace, r *rand.Rand) {
 			serial++
 			fv := int(k)*1000 + serial%1000
 			called := false
+			beforeSet := resident()
 			v := c.GetPut(k, func(lk) int { called = true; return fv })
+			opno++
 			if called {
 				last[k] = fv
+				putAt[k] = opno
+				checkEvict(beforeSet, k)
 				afterPut(k)
 				t.Count("lru getput miss")
 			} else {
@@ -299,6 +329,7 @@ func lruCase(t *lib.Trace, r *rand.Rand) {
 			if !dupPut {
 				// the way the callers use it: Put only after a miss
 				if v, ok := c.Get(k); ok {
+					opno++
 					checkHit("Get", k, v)
 					t.Qf(fmt.Sprint(v), "lget %d", int(k))
 					continue
@@ -309,11 +340,18 @@ func lruCase(t *lib.Trace, r *rand.Rand) {
 			}
 			serial++
 			v := int(k)*1000 + serial%1000
+			beforeSet := resident()
 			c.Put(k, v)
+			opno++
 			last[k] = v
+			putAt[k] = opno
+			if !dupPut {
+				checkEvict(beforeSet, k)
+			}
 			afterPut(k)
 			t.Qf("ok", "lput %d %d", int(k), v)
 			t.Count("lru put")
+			opno++
 			if got, ok := c.Get(k); !ok || got != v {
 				t.Fail("lru-get-after-put", fmt.Sprintf("Put(%d,%d) then Get = (%d,%v); size=%d", int(k), v, got, ok, size))
 			}
@@ -331,12 +369,21 @@ func lruCase(t *lib.Trace, r *rand.Rand) {
 				t.Count("lru full")
 			}
 		default:
-			if r.Intn(6) == 0 {
+			// Reset after the order has been stirred, then the cache is refilled beyond its capacity by the
+			// following operations (the reset histories run 2x as long)
+			if resetHist && r.Intn(2) == 0 || r.Intn(6) == 0 {
 				c.Reset()
 				prevPut = -1
 				last = map[lk]int{}
+				putAt = map[lk]int{}
 				t.Q("lreset", "ok")
 				t.Count("lru reset")
+				if h, m := c.Stats(); h != 0 || m != 0 {
+					t.Fail("lru-reset", fmt.Sprintf("Stats after Reset = %d %d", h, m))
+				}
+				if n, _ := entries(); n != 0 {
+					t.Fail("lru-reset", fmt.Sprintf("%d entries after Reset", n))
+				}
 			}
 		}
 	}
@@ -352,9 +399,42 @@ func lruCase(t *lib.Trace, r *rand.Rand) {
 func cacheCase(t *lib.Trace, r *rand.Rand) {
 	t.Q("reset", "ok")
 	ncalls := 0
-	c := cache.New(func(k int) int { ncalls++; return k*100000 + ncalls })
+	failNext := false // the next getter call panics (the caller recovers, as core/thread.go callers do)
+	nest := -1        // the next getter call re-enters the cache with Get(nest)
+	var innerV int
+	var innerCalled, innerDone bool
+	produced := map[int]map[int]bool{} // key -> values the getter successfully returned for it
+	var c *cache.Cache[int, int]
+	c = cache.New(func(k int) int {
+		ncalls++
+		my := ncalls
+		if failNext {
+			failNext = false
+			panic("getter failed")
+		}
+		if nest >= 0 {
+			k2 := nest
+			nest = -1
+			before := ncalls
+			innerV = c.Get(k2)
+			innerCalled = ncalls != before
+			innerDone = true
+		}
+		v := k*100000 + my
+		if produced[k] == nil {
+			produced[k] = map[int]bool{}
+		}
+		produced[k][v] = true
+		return v
+	})
+	check := func(what string, k, v int) {
+		if !produced[k][v] {
+			t.Fail("cache-wrong-value", fmt.Sprintf("%s(%d) returned %d which the getter never returned for that key (it encodes key %d, call %d of %d)", what, k, v, v/100000, v%100000, ncalls))
+		}
+	}
 	nkeys := []int{3, 8, 9, 12, 30}[r.Intn(5)]
 	t.Count(fmt.Sprintf("cache keys %d", nkeys))
+	special := r.Intn(3) != 0 // histories with failing / re-entrant getters
 	prev := -1
 	for i := 0; i < 40+r.Intn(100); i++ {
 		k := r.Intn(nkeys)
@@ -362,11 +442,55 @@ func cacheCase(t *lib.Trace, r *rand.Rand) {
 			k = prev
 		}
 		before := ncalls
+		x := r.Intn(10)
+		switch {
+		case special && x == 0: // the getter panics
+			failNext = true
+			var v int
+			msg := lib.Catch(func() { v = c.Get(k) })
+			failNext = false
+			if msg != "" {
+				t.Qf("!panic", "cgetfail %d", k)
+				t.Count("cache get getter-panics miss")
+				prev = -1 // nothing may have been cached for k
+				// the very next Get of that key must go to the getter again (or at least return a real value)
+				if r.Intn(2) == 0 {
+					b2 := ncalls
+					v2 := c.Get(k)
+					check("Get after failed getter", k, v2)
+					t.Qf(fmt.Sprintf("%d %s", v2, lib.B(ncalls != b2)), "cget %d %d", k, k*100000+b2+1)
+					prev = k
+				}
+			} else {
+				check("Get", k, v)
+				t.Qf(fmt.Sprintf("%d f", v), "cgetfail %d", k)
+				t.Count("cache get getter-panics hit")
+				prev = k
+			}
+			continue
+		case special && x == 1: // the getter re-enters the cache
+			k2 := r.Intn(nkeys)
+			nest = k2
+			innerDone = false
+			v := c.Get(k)
+			nest = -1
+			called := ncalls != before
+			check("Get", k, v)
+			out := fmt.Sprintf("%d %s", v, lib.B(called))
+			if innerDone {
+				check("nested Get", k2, innerV)
+				out += fmt.Sprintf(" %d %s", innerV, lib.B(innerCalled))
+				t.Count("cache get re-entrant miss inner-called=" + lib.B(innerCalled))
+			} else {
+				t.Count("cache get re-entrant hit")
+			}
+			t.Qf(out, "cgetnest %d %d %d %d", k, k2, k2*100000+before+2, k*100000+before+1)
+			prev = -1
+			continue
+		}
 		v := c.Get(k)
 		called := ncalls != before
-		if v/100000 != k || v%100000 < 1 || v%100000 > ncalls {
-			t.Fail("cache-wrong-value", fmt.Sprintf("Get(%d) returned %d which the getter never produced for that key (it encodes key %d, call %d of %d)", k, v, v/100000, v%100000, ncalls))
-		}
+		check("Get", k, v)
 		if called && k == prev {
 			t.Fail("cache-refetch", fmt.Sprintf("Get(%d) twice in a row called the getter again", k))
 		}
@@ -549,7 +673,9 @@ func auxCases(t *lib.Trace, r *rand.Rand, n int) {
 		roaringCase(t, r, true)
 	}
 	for i := 0; i < n/3; i++ {
-		lruCase(t, r)
+		if msg := lib.Catch(func() { lruCase(t, r) }); msg != "" {
+			t.Fail("lru-panic", "an lrucache operation panicked: "+msg)
+		}
 	}
 	for i := 0; i < n/2; i++ {
 		cacheCase(t, r)
